@@ -998,9 +998,10 @@ func c13Widths(r *run.Run) {
 // c13WidthsExtreme: widths near and beyond the range of a Type 2 operand (the width operand is the
 // difference to nominalWidthX, a DICT number, so such widths are representable).
 func c13WidthsExtreme(r *run.Run) {
-	ws := []float64{0, 500, 31999.5, 32000, 32001, 32100, 32500, 32767, -32000, -32100, -32767}
+	// (20000.123456, 30000.123456: more than nine significant digits - the stored default / nominal width is rounded)
+	ws := []float64{0, 500, 31999.5, 32000, 32001, 32100, 32500, 32767, -32000, -32100, -32767, 20000.123456, 30000.123456}
 	r.Explore(explore.Config{Name: "C13.widths-extreme"},
-		"advance widths of simple fonts with 4 or 5 glyphs, widths [w1 w1 w2 w3 (w4)] over {0, 500, 31999.5, 32000, 32001, 32100, 32500, 32767, -32000, -32100, -32767} (at and beyond the clamp of the path coordinates, up to the ends of the Type 2 number range; widths outside +-32767 are not in the domain): recovered to 16.16 precision by cff.Read and by the independent interpreter",
+		"advance widths of simple fonts with 4 or 5 glyphs, widths [w1 w1 w2 w3 (w4)] over {0, 500, 31999.5, 32000, 32001, 32100, 32500, 32767, -32000, -32100, -32767, 20000.123456, 30000.123456} (at and beyond the clamp of the path coordinates, up to the ends of the Type 2 number range; widths outside +-32767 are not in the domain): recovered to 16.16 precision by cff.Read and by the independent interpreter",
 		func(c *explore.Ctx) {
 			f := &cff.Font{FontInfo: c13Info(), Outlines: &cff.Outlines{Private: []*type1.PrivateDict{c13Priv(0)}, FDSelect: func(glyph.ID) int { return 0 }}}
 			w1 := ws[c.Choose(len(ws), "repeated width")]
@@ -1029,6 +1030,35 @@ func c13WidthsExtreme(r *run.Run) {
 					} else if math.Abs(ref.Width-sel[i]) > 1.0/65536+1e-12 {
 						c.Fail("C13.width", "extreme widths / independent", "glyph %d: independent interpreter recovers width %v, want %v (widths %v, defaultWidthX %v, nominalWidthX %v)", i, ref.Width, sel[i], sel, p.DefaultWidthX, p.NominalWidthX)
 					}
+				}
+			}
+		})
+}
+
+// c13WidthsFew: fonts of one to three glyphs whose widths are not numbers a DICT holds exactly.
+func c13WidthsFew(r *run.Run) {
+	ws := []float64{500, 20000.123456, 0.1, 1.0 / 3, -250.000001, 0}
+	r.Explore(explore.Config{Name: "C13.widths-few"},
+		"fonts of 1..3 glyphs with every combination of the widths {500, 20000.123456, 0.1, 1/3, -250.000001, 0} (values a DICT real number with its nine digits does not hold exactly): recovered to 16.16 precision",
+		func(c *explore.Ctx) {
+			n := 1 + c.Choose(3, "glyphs")
+			f := &cff.Font{FontInfo: c13Info(), Outlines: &cff.Outlines{Private: []*type1.PrivateDict{c13Priv(0)}, FDSelect: func(glyph.ID) int { return 0 }}}
+			var sel []float64
+			for i := 0; i < n; i++ {
+				w := ws[c.Choose(len(ws), "width")]
+				sel = append(sel, w)
+				f.Glyphs = append(f.Glyphs, c13Glyph([]string{".notdef", "A", "B"}[i], w, i+1))
+			}
+			f.Encoding = cff.StandardEncoding(f.Glyphs)
+			c.Sample(func() any { return sel })
+			c.Nontrivial()
+			_, g := c13Roundtrip(c, "few widths", f, sel)
+			if g == nil {
+				return
+			}
+			for i := range sel {
+				if math.Abs(g.Glyphs[i].Width-sel[i]) > 1.0/65536 {
+					c.Fail("C13.width", "few widths", "glyph %d: width %v comes back as %v (widths %v)", i, sel[i], g.Glyphs[i].Width, sel)
 				}
 			}
 		})
@@ -1101,5 +1131,6 @@ func init() {
 		c13Widths(r)
 		c13WidthsExtreme(r)
 		c13WidthsHinted(r)
+		c13WidthsFew(r)
 	})
 }
